@@ -1,4 +1,8 @@
-(* C13 -- source ranges designate the construct they belong to.  Shape clauses, from the lexer
+(* C13 -- source ranges are valid and designate the construct they belong to.  For every parsed document
+   (entity-expanded nodes included): every node and attribute range is a valid slice of the input (start <=
+   end <= len, char boundaries), the root range is the whole input, every attribute lies strictly inside its
+   element's range with its qname sub-range inside it; for documents without a DOCTYPE a child's range lies
+   within its parent's and a node starts after its previous sibling ends.  Shape clauses, from the lexer
    post-conditions: the range of a comment token is exactly '<!--' text '-->', of a PI token '<?' target ...
    '?>', a start tag runs from '<' to its '>' and the name follows the '<', an end tag from '</' to '>';
    text / CDATA ranges are the token's source.  (The builder stores these token ranges; validity, nesting
@@ -10,11 +14,58 @@ From Coq Require Import List NArith Bool PeanoNat Sorted.
 Import ListNotations.
 From RX Require Import Generated.
 From RX.Model Require Import Base CharClass Stream Tokenizer Doc Builder Parse Api.
-From RX.Proofs Require Import LexerProofs.
+From RX.Proofs Require Import LexerProofs NoPanicTokenizer RangeTokenizer RangeArena RangeInv RangeBuilder RangeParse.
 Open Scope N_scope.
 
+(* ---- Proofs/RangeParse.v ---- *)
+Theorem C13_parse_ranges_valid :
+  forall text opt d, valid_utf8_b text = true ->
+  parse text opt = Ok d -> doc_ranges_ok text d.
+Proof. exact parse_ranges_valid. Qed.
+Print Assumptions C13_parse_ranges_valid.
+
+Theorem C13_parse_attr_ranges_inside :
+  forall text opt d id nd ns local ar nss a i, valid_utf8_b text = true ->
+  parse text opt = Ok d -> nth_N (d_nodes d) id = Some nd -> nd_kind nd = KElement ns local ar nss ->
+  fst ar <= i -> i < snd ar -> nth_N (d_attrs d) i = Some a ->
+  fst (nd_range nd) < fst (ad_range a) /\ snd (ad_range a) < snd (nd_range nd) /\
+  fst (attr_range_qname a) = fst (ad_range a) /\ snd (attr_range_qname a) <= snd (ad_range a).
+Proof. exact parse_attr_ranges_inside. Qed.
+Print Assumptions C13_parse_attr_ranges_inside.
+
+Theorem C13_parse_ranges_nest :
+  forall text opt d id nd p pnd, valid_utf8_b text = true ->
+  contains_b (b "<!DOCTYPE") text = false ->
+  parse text opt = Ok d -> nth_N (d_nodes d) id = Some nd -> nd_parent nd = Some p -> nth_N (d_nodes d) p = Some pnd ->
+  fst (nd_range pnd) <= fst (nd_range nd) /\ snd (nd_range nd) <= snd (nd_range pnd).
+Proof. exact parse_ranges_nest. Qed.
+Print Assumptions C13_parse_ranges_nest.
+
+Theorem C13_parse_ranges_siblings :
+  forall text opt d id nd q qnd, valid_utf8_b text = true ->
+  contains_b (b "<!DOCTYPE") text = false ->
+  parse text opt = Ok d -> nth_N (d_nodes d) id = Some nd -> nd_prev_sibling nd = Some q -> nth_N (d_nodes d) q = Some qnd ->
+  snd (nd_range qnd) <= fst (nd_range nd).
+Proof. exact parse_ranges_siblings. Qed.
+Print Assumptions C13_parse_ranges_siblings.
+
+(* ---- Proofs/RangeTokenizer.v ---- *)
+Module G1.
+Local Notation token := Tokenizer.token.
+Theorem C13_tokenizer_token_ranges :
+  forall text (C : Type) (ev : token -> C -> res C)
+    (J : bool -> N -> C -> Prop) dtd c c',
+  valid_utf8_b text = true ->
+  (forall tok c0 c1 p0 p1, J (tok_pre tok) p0 c0 -> TokAt text p0 p1 tok ->
+                           ev tok c0 = Ok c1 -> J (tok_post tok) p1 c1) ->
+  J false 0 c -> parse_document text C ev dtd c = Ok c' -> exists p, J false p c'.
+Proof. exact tokenizer_token_ranges. Qed.
+Print Assumptions C13_tokenizer_token_ranges.
+
+End G1.
+
 (* ---- Proofs/LexerProofs.v ---- *)
-Module G0.
+Module G2.
 Local Notation token := Tokenizer.token.
 Theorem C13_parse_comment_post :
   forall (text : bytes), forall s acc s' acc', SInv text s ->
@@ -85,4 +136,4 @@ Theorem C13_parse_close_element_post :
 Proof. exact parse_close_element_post. Qed.
 Print Assumptions C13_parse_close_element_post.
 
-End G0.
+End G2.
